@@ -670,6 +670,23 @@ class Interp:
                 if merged is not None:
                     return merged
             return res
+        if re.match(r"^<.* as Clone>::clone$", callee) and len(args) == 1:
+            # no body in the dump = a derived / std Clone: symbolic values are immutable, a copy is the value itself
+            a0 = args[0]
+            return [(None, self.deref(a0, self.cur_env) if isinstance(a0, (MutRef, ElemRef, MapElemRef, LocalCell)) else a0)]
+        m = re.match(r"^<(.*) as PartialEq(<.*>)?>::(eq|ne)$", callee)
+        if m and len(args) == 2:
+            # a comparison nothing else models (it only shows up when the code under analysis starts reading state the encoding
+            # leaves abstract): an unconstrained but deterministic boolean - a sound over-approximation
+            vals = [self.deref(a, self.cur_env) if isinstance(a, (MutRef, ElemRef, MapElemRef, LocalCell)) else a for a in args]
+            memo = self.__dict__.setdefault("_abstract_eq", [])
+            for x, y, b in memo:
+                if (x is vals[0] and y is vals[1]) or (x is vals[1] and y is vals[0]):
+                    break
+            else:
+                b = self.sem.fresh("Bool", "abs_eq")
+                memo.append((vals[0], vals[1], b))
+            return [(None, SV("bool", b if m.group(3) == "eq" else "(not %s)" % b))]
         raise Unsupported("%s: call to %s has no model and is not in the inline set" % (fn.name, callee))
 
     def call_inlined(self, target, args, depth):
@@ -972,7 +989,7 @@ class Interp:
             hits = []
             if pm:
                 tail = "::%s::promoted[%s]" % (pm.group(1), pm.group(2))
-                hits = [f for name, fl in self.dump.fns.items() for f in fl if name.endswith(tail)]
+                hits = [f for name, fl in self.dump.fns.items() for f in fl if name.endswith(tail) or name == tail[2:]]
                 if len(hits) > 1:
                     h2 = [f for f in hits if f.name.split("::")[0] == c.split("::")[0]]
                     hits = h2 or hits
@@ -1057,6 +1074,9 @@ class Interp:
                     k, v = f.split(":", 1)
                     fields[str(i)] = self._operand(fn, v, env)
             return Agg(ty, fields)
+        # array literal `[move _1, copy _2]`
+        if r.startswith("[") and r.endswith("]") and ";" not in r:
+            return VecVal([self._operand(fn, x, env) for x in split_top(r[1:-1])] if r[1:-1].strip() else [])
         # tuple
         if r.startswith("(") and r.endswith(")"):
             items = split_top(r[1:-1])
